@@ -133,15 +133,15 @@ Section Frame.
   Lemma Fr_sep_tokens item sep : Fr (sep_tokens item sep).
   Proof. intros i c d HK. unfold sep_tokens. apply Fr_sep_tokens_go. exact HK. Qed.
 
-  Lemma Fr_sep_list_rec {A} (p : P A) sep : Fr p -> forall fuel acc, Fr (sep_list_rec fuel p sep acc).
+  Lemma Fr_sep_list_rec {A} (p : P A) sep : Fr p -> forall fuel prev acc, Fr (sep_list_rec fuel p sep prev acc).
   Proof.
-    intros Hp. induction fuel as [|f IH]; intros acc i c d HK; cbn [sep_list_rec]; [apply rel2_ret; exact HK|].
+    intros Hp. induction fuel as [|f IH]; intros prev acc i c d HK; cbn [sep_list_rec]; [apply rel2_ret; exact HK|].
     use Hp i c d HK r c1 d1 HK1 F.
     destruct r as [rest a|e m|s|]; apply (rel2_cont _ _ _ _ _ _ F); try (apply rel2_ret; exact HK1).
     - use (Fr_exp_token sep) rest c1 d1 HK1 r2 c2 d2 HK2 F2.
       destruct r2 as [rest2 t2|e2 m2|s|]; apply (rel2_cont _ _ _ _ _ _ F2); try (apply rel2_ret; exact HK2).
       apply IH. exact HK2.
-    - set (dg := mkDiag (new_range (first_range i) match e with [] => first_range i | t :: _ => trange t end) m).
+    - set (dg := mkDiag (new_range (range_or i (trange prev)) (range_or e (range_or i (trange prev)))) m).
       apply (rel2_diag _ _ dg).
       pose proof (K_add_diag dg c1 d1 HK1) as HK1'.
       use (Fr_exp_token sep) e (add_diag dg c1) (add_diag dg d1) HK1' r2 c2 d2 HK2 F2.
@@ -165,7 +165,7 @@ Section Frame.
     use Hp (t :: i') c d HK r c1 d1 HK1 F.
     destruct r as [rest a|e m|s|]; apply (rel2_cont _ _ _ _ _ _ F); try (apply rel2_ret; exact HK1).
     - apply IH. exact HK1.
-    - apply (rel2_diag _ _ (diag_at e m)). apply IH. apply K_add_diag. exact HK1.
+    - apply (rel2_diag _ _ (diag_at (t :: i') e m)). apply IH. apply K_add_diag. exact HK1.
   Qed.
 
   Lemma Fr_repeat {A} (p : P A) : Fr p -> Fr (repeat_w_ctx p).
@@ -180,7 +180,7 @@ Section Frame.
     use Hp (t :: i') c0 d0 HK0 r c1 d1 HK1 F.
     destruct r as [rest a|e m|s|]; apply (rel2_cont _ _ _ _ _ _ F); try (apply rel2_ret; exact HK1).
     - apply IH. exact HK1.
-    - apply (rel2_diag _ _ (diag_at e m)). apply IH. apply K_add_diag. exact HK1.
+    - apply (rel2_diag _ _ (diag_at (t :: i') e m)). apply IH. apply K_add_diag. exact HK1.
   Qed.
 
   Lemma Fr_until {A} (stop : P tok) (p : P A) : Fr stop -> Fr p -> Fr (until_w_ctx stop p).
